@@ -135,11 +135,22 @@ pub fn check_ws(ws0: &WorkspaceSpec, info: &mut CaseInfo) -> Outcome {
 
 pub fn run(ctx: &Ctx) {
     ctx.run_prop("lib", ctx.tier.pick(16_000, 800_000), 16, || workspace(cfg()).prop_map(|ws| Case { ws }), |c, info| check_ws(&c.ws, info));
+    ctx.run_prop_shrink("lsp", ctx.tier.pick(100, 2500), 8, 150, || workspace(lsp_cfg()).prop_map(|ws| Case { ws }), |c, info| {
+        crate::props::lsp_tiers::c05_features(ctx, &c.ws, lsp_cfg().names, info)
+    });
 }
 
-pub fn judge(_ctx: &Ctx, sub: &str, case: &Value) -> Option<Outcome> {
+pub fn lsp_cfg() -> GenCfg {
+    GenCfg { names: 3, max_depth: 3, max_items: 3, allow_dups_in_file: true, ..GenCfg::default() }
+}
+
+pub fn judge(ctx: &Ctx, sub: &str, case: &Value) -> Option<Outcome> {
     let mut info = CaseInfo::default();
     match sub {
+        "lsp" => {
+            let c: Case = from_case(case)?;
+            Some(crate::props::lsp_tiers::c05_features(ctx, &c.ws, lsp_cfg().names, &mut info))
+        }
         "lib" => {
             let c: Case = from_case(case)?;
             Some(check_ws(&c.ws, &mut info))
